@@ -469,6 +469,20 @@ def run(ctx: core.Ctx):
                 seen.add((init, key))
                 frontier.append((init, hist))
         d += 1
+    # explicit same-text-in-another-context histories: [o, switch context, o] for every context-dependent op o.
+    # BFS deduplication never repeats a statement text along a shortest path, so state hidden behind the statement
+    # text (e.g. a cache of resolved statements) would stay invisible; these histories execute the identical text
+    # twice under two different contexts and judge the second execution with the full oracle.
+    ctx_ops = [o for o in alphabet(ctx.tier) if (o[0] in ("create_table", "drop_table", "insert", "select", "create_view") and o[1] in (0, 1)) or (o[0] in ("use_schema", "create_schema", "drop_schema") and o[1] is None and o[2] != "NOPE")]
+    switches = [("use_db", "DB2"), ("use_schema", None, "S2"), ("use_schema", "DB2", "S1"), ("use_db", "DB1")]
+    extra = []
+    for o in ctx_ops:
+        for sw in switches:
+            extra.append(("A", [(0, o), (0, sw)], 0, [o]))
+            if o[0] in ("insert", "select", "drop_table"):
+                extra.append(("A", [(0, ("create_table", 2, "DB2", "S1")), (0, ("create_table", 2, "DB1", "S2")), (0, o), (0, sw)], 0, [o]))
+    ctx.pmap(expand, extra, recheck=False)
+    ctx.extra["same_text_other_context_histories"] = len(extra)
     for s in seen:
         ctx.acc.add("states", s)
     ctx.extra["bound"] = "quick: init A depth 3 (connection 0 drives, connection 1 observed), B/C depth 1; thorough: A depth 3 both connections, B/C depth 2"
